@@ -116,6 +116,7 @@ static std::string handle(const std::string& verb, const std::vector<std::string
         else if (verb == "ctl") { return vh::verb_ctl(f); }
         else if (verb == "ctl2") { return vh::verb_ctl2(f); }
         else if (verb == "ctl3") { return vh::verb_ctl3(f); }
+        else if (verb == "ctl4") { return vh::verb_ctl4(f); }
         else if (verb == "iso") { return vh::verb_iso(f); }
         else if (verb == "pbo") { return vh::verb_pbo(f); }
         else if (verb == "pbo2") { return vh::verb_pbo2(f); }
